@@ -37,9 +37,9 @@ Section Reparse.
 
   Lemma dom_msg_from_out m : msg_out_ok m -> restricted (m_body m) = true -> dom_msg egt quote_plain m = true.
   Proof.
-    intros (Hs & Hf & Hw & Hz & Hb) R. unfold dom_msg.
+    intros (Hs & Hf & Hw & Hz & Hb & Hd) R. unfold dom_msg.
     assert (B : is_empty (m_body m) || dom_item egt quote_plain (m_body m) = true).
-    { destruct Hb as [->|Wb]; [reflexivity|]. rewrite (dom_from_out _ Wb Hz R). apply orb_true_r. }
+    { destruct Hb as [E|Wb]; [rewrite E; reflexivity|]. rewrite (dom_from_out _ Wb Hz R). apply orb_true_r. }
     rewrite B.
     assert (M : 0 <= m_function m mod 2 < 2) by (apply Z.mod_pos_bound; lia).
     destruct (m_wbit m); cbn [negb orb andb] in *; lia.
